@@ -29,7 +29,13 @@ SUPPORTED = {
     "nasim.envs.host_vector.HostVector.observe": "hv_observe",
     "nasim.envs.environment.NASimEnv.step": "env_step",
     "nasim.envs.environment.NASimEnv.generative_step": "env_step",
+    "nasim.envs.state.State.get_initial_observation": "state_get_initial_observation",
+    "nasim.envs.environment.NASimEnv.get_action_mask": "env_action_mask",
 }
+
+# harnesses whose clauses are evaluated natively by an oracle in replay/dyn_replay.py (environment-level functions: the
+# engine-side contract speaks about an abstract action space / contract-havoced callees that have no concrete lifting)
+NATIVE_ORACLE = {"env_step", "env_action_mask"}
 
 
 def random_scenario(rng, cfg):
@@ -144,6 +150,12 @@ def random_input(rng, harness, variant, cfg):
         rep["result"] = res
         return rep
     rep["tensor"] = [random_row(rng, sc, i) for i in range(len(sc["addrs"]))]
+    if harness == "state_get_initial_observation":
+        rep["fully_obs"] = rng.random() < 0.3
+        return rep
+    if harness == "env_action_mask":
+        rep["steps0"] = rng.choice([0, 1, 5])
+        return rep
     if harness == "env_step":
         kind = variant.split("/")[0]
         lim = variant.endswith("/limit")
@@ -244,11 +256,14 @@ def lift_result(I, S, harness, rep, actual):
     if harness == "hv_observe":
         c = NpCell(_arr1(z3.K(z3.IntSort(), z3.RealVal(0)), actual["obs_vector"]), (L.W,), dtype="float32", fresh=True)
         return NpArr(c)
-    if harness == "state_get_observation":
+    if harness in ("state_get_observation", "state_get_initial_observation"):
         obscls = I.repo.cls("nasim.envs.observation.Observation")
         N1 = len(rep["tensor"]) + 1
         base = z3.K(z3.IntSort(), z3.K(z3.IntSort(), z3.RealVal(0)))
-        oc = NpCell(_arr2(base, actual["obs_tensor"]), (N1, L.W), dtype=actual.get("obs_dtype", "float32"), fresh=True)
+        oc = NpCell(_arr2(base, actual["obs_tensor"]), (N1, L.W), dtype=actual.get("obs_dtype", "float32"),
+                    fresh=not actual.get("aliased", False))
+        if "input_tensor_after" in actual:
+            S.a["self"].fields["tensor"].cell.content = _arr2(S.old["T"], actual["input_tensor_after"])
         from pyvc.values import mk
         return Obj(obscls, {"obs_shape": (N1, mk(L.W, "int") if z3.is_expr(L.W) else L.W), "aux_row": N1 - 1, "tensor": NpArr(oc)},
                    fresh=True)
@@ -331,6 +346,8 @@ def evaluate(repo, c, variant, cfg, harness, rep, actual):
             if k in r.get("discovered", {}):
                 facts.append(S.extra["dis"](z3.IntVal(i)) == bool(r["discovered"][k]))
                 facts.append(S.extra["new"](z3.IntVal(i)) == bool(r["newly_discovered"][k]))
+    if harness == "state_get_initial_observation":
+        facts.append(z3.Bool("fully_obs") == bool(rep["fully_obs"]))
     if harness == "net_update_reachable":
         ad = S.a["compromised_addr"]
         from pyvc.values import ival
@@ -379,7 +396,7 @@ def run_fallback(repo, c, variant, cfg, tree, samples, seed=0):
     out = {"samples": samples, "valid": 0, "failures": []}
     seen = set()
     for rep, act in zip(reps, actuals):
-        if harness == "env_step":
+        if harness in NATIVE_ORACLE:
             # environment-level clauses are evaluated natively by the oracle of replay/dyn_replay.py
             failed = list(act.get("clause_failures", [])) + ([f"raises:{act['exception']}"] if act.get("exception") else [])
             failed = [f.split(":")[0] for f in failed]
